@@ -100,6 +100,11 @@ def scan_trusted(path, meta):
                         break
             desc = re.sub(r"\s+", " ", desc)[:220]
             hit = [iid for (a, b, iid) in item_ranges if a <= i <= b]
+            if hit and s.endswith("// @attr of clauses.vspec"):
+                # an allow-listed proof attribute requested by the contracts (e.g. termination left unproved): an assumption of
+                # the unit, listed in trusted.lock like every other one — not something the extracted code smuggled in
+                trusted.append(f"{hit[0]}: {desc}")
+                continue
             (in_items if hit else trusted).append(desc if not hit else f"{hit[0]}: {desc}")
     return trusted, in_items
 
@@ -448,6 +453,8 @@ def run_witness(u, scratch, failed_obligations, tier):
         pairs = [(w["file"], w["append_to"])] + [(a["file"], a["to"]) for a in w.get("also_append", [])]
         for wf, to in pairs:
             tgt = os.path.join(copy, to)
+            if not os.path.exists(tgt):
+                return {"_error": f"anchor lost: the file the witness is appended to does not exist: {to}"}
             marker = "// ---- appended by /verif: " + tname + " " + wf
             if marker not in open(tgt).read():
                 open(tgt, "a").write("\n" + marker + "\n" + open(os.path.join(u["_dir"], wf)).read())
